@@ -13,7 +13,7 @@ T2 node sizing: assignment of a (longer or shorter) vector resizes to the declar
    before indexing; cleaning resizes to the declared size.
 """
 import re
-from ..cfg import Facts, kids, strip, walk, cv, render, call_args, call_object
+from ..cfg import Facts, kids, strip, walk, cv, render, call_args, call_object, switch_sections
 from ..cfg import short_loc as _short_loc
 from ..facts import export, export_many, AnalysisBroken
 
@@ -62,7 +62,7 @@ def run(rep, ctx):
           r"mp::ProblemFlattener::(ConvertVars|Convert|ConvertAlgCon|ConvertLogicalCon)",
           r"mp::FlatConverter::(DoAddVar|AddVar|AddVars|MakeFixedVar|AddConstraint|AddConstraint_AS_ROOT|"
           r"AddConstraintAndTryNoteResultVariable|AutoLink|RunConversion|AddObjective|TurnOffAutoLinking|DoingAutoLinking|SetAutoLinkSource)"]
-    d = export(U, fn=fn, repo=repo)
+    d = export(U, fn=fn, enum=[r"mp::IISStatus"], repo=repo)
     cgd = export(U, callgraph=True, repo=repo)
     F = Facts([d])
     rep.note_units([U])
@@ -431,6 +431,39 @@ def run(rep, ctx):
         r = [x for x in f.walk() if x["k"] == "ReturnStmt"]
         t = render(kids(r[0])[0]).replace(" ", "") if len(r) == 1 else ""
         e1.check("pvn_==nr.pvn_" in t and "ir_.end_==nr.ir_.beg_" in t and "&&" in t, "extendable", short_loc(f.loc), "extendable = same node and contiguous (end == next begin)")
+
+    # ---- T3: IIS status of a range constraint converted to equality + slack ---------------------------
+    t3 = rep.rule("C04.T3", "TABLE", "IIS postsolve of range -> equality+slack: exactly one status reaches the range (the slack's, reversed low<->upp, if the slack is flagged; else the row's)", floor=2)
+    for f in all_of("mp::pre::RangeCon2Slack::PostsolveIISEntry")[:2]:
+        tag = "Quad" if "QuadAndLinTerms" in f.full else "Lin"
+        sets = [c for c in calls(f, name="SetInt") if render(call_args(c)[1]).endswith("CON_SRC")]
+        ok = len(sets) == 2
+        why = "%d writes to the range's status" % len(sets)
+        if ok:
+            a, b = sets
+            excl = not f.cfg.before(a, b) and not f.cfg.before(b, a)
+            throws = [x["i"] for x in f.walk() if x["k"] == "CXXThrowExpr"]
+            covered = f.cfg.path_avoiding(None, "exit", [a["i"], b["i"]] + throws, from_entry=True) is None
+            ok = excl and covered
+            why = "the two writes are %s" % ("not exclusive: the node keeps the larger of the two codes, so the row's status can override the slack's" if not excl else "not on every path")
+            vals = sorted(render(call_args(c)[2]).replace(" ", "") for c in sets)
+            ok = ok and any(v.endswith("CON_TARGET)") for v in vals) and any(v == "slk_iis" for v in vals)
+        t3.check(ok, "one-status|" + tag, short_loc(f.loc), "exactly one of {reversed slack status, row status} is written, on every path", why)
+        sw = [n for n in f.walk() if n["k"] == "SwitchStmt"]
+        okm = len(sw) == 1
+        if okm:
+            secs = switch_sections(sw[0])
+            names = {}
+            for lab, sec in secs.items():
+                asg = [render(kids(x)[1]).split("::")[-1].rstrip(")").replace("(int)", "") for st in sec for x in walk(st) if x["k"] == "BinaryOperator" and x.get("op") == "="]
+                thr = any(x["k"] == "CXXThrowExpr" for st in sec for x in walk(st))
+                names[lab] = ("throw" if thr else (asg[0] if asg else "keep"))
+            ev = F.enum_values("mp::IISStatus") or {}
+            inv = {v: k for k, v in ev.items()}
+            got = {inv.get(k, k): v for k, v in names.items()}
+            okm = got.get("low") == "upp" and got.get("upp") == "low" and got.get("fix") == "keep" and got.get("default") == "throw"
+            why2 = str(got)
+        t3.check(okm, "reversal|" + tag, short_loc(f.loc), "slack low -> range upp, upp -> low, fix -> fix, anything else is refused", why2 if sw else "no switch")
 
     t2 = rep.rule("C04.T2", "GUARD", "node sizing: vectors are brought to the declared size before they are indexed", floor=6)
     for f in all_of("mp::pre::ValueNode::operator="):
